@@ -52,6 +52,18 @@ def canon(e, env=None, post=False, place=False):
     if k == "Lit":
         return str(e.get("v"))
     if k == "Field":
+        if str(e["member"]).isdigit():
+            # `t.0` of a tuple that was built in place is that element
+            inner = A.strip(e["e"])
+            seen_ = set()
+            env_ = env
+            while inner is not None and inner.get("k") == "Path" and A.ident(inner) in env_ and A.ident(inner) not in seen_:
+                n_ = A.ident(inner)
+                seen_.add(n_)
+                inner = A.strip(env_[n_][0])
+                env_ = {k2: v for k2, v in env_.items() if k2 != n_}
+            if inner is not None and inner.get("k") == "Tuple" and int(e["member"]) < len(inner["elems"]):
+                return canon(inner["elems"][int(e["member"])], env_, post)
         return "%s.%s" % (canon(e["e"], env, post), e["member"])
     if k == "Index":
         return "%s[%s]" % (canon(e["e"], env, post), canon(e["index"], env, post))
@@ -206,3 +218,33 @@ def summary(fn):
 
     rec(fn["body"]["stmts"], {}, [])
     return out
+
+
+def env_at(block, target):
+    """let_env of the lets that precede `target` on the way down to it (enclosing blocks included)"""
+    env = {}
+    cur = block
+    while cur is not None:
+        nxt = None
+        stmts = cur.get("stmts") if cur.get("k") == "Block" else None
+        if stmts is None:
+            # not a block: find the nearest blocks below that contain the target
+            for b in A.find(cur, "Block"):
+                if b is not cur and any(n is target for n in A.walk(b)):
+                    nxt = b
+                    break
+            cur = nxt
+            continue
+        for idx, s_ in enumerate(stmts):
+            if any(n is target for n in A.walk(s_)):
+                env.update(let_env(stmts[:idx]))
+                nxt = s_
+                break
+        if nxt is None or nxt is target:
+            break
+        cur = None
+        for b in A.find(nxt, "Block"):
+            if any(n is target for n in A.walk(b)):
+                cur = b
+                break
+    return env
